@@ -237,6 +237,13 @@ class SymCtx:
     def in_set(self, v, s):
         return BoolV(B(s.contains(v)))
 
+    def member(self, v, seq):
+        """v occurs in the sequence"""
+        j = fresh("mb")
+        if isinstance(seq, ListV):
+            seq = seq.snapshot()
+        return BoolV(z3.Exists([j], z3.And(j >= 0, j < seq.n, veq(seq.at(j), v))))
+
     def cell(self, x, y):
         return TupV([x if isinstance(x, V) else IntV(x), y if isinstance(y, V) else IntV(y)])
 
@@ -389,6 +396,9 @@ class RunCtx:
 
     def in_set(self, v, s):
         return v in s
+
+    def member(self, v, seq):
+        return v in list(seq)
 
     def cell(self, x, y):
         return (x, y)
